@@ -2,8 +2,9 @@
    Coq datatypes (positive, Z, Q, nat).  Compiled from the ocaml/gen directory
    by tools/build_model.sh so that model.ml lands there. *)
 From Coq Require Import Extraction ExtrOcamlBasic.
-From QSX Require Import Base.QSum LP.ILP LP.Cert.
+From QSX Require Import Base.QSum LP.ILP LP.Cert LP.User.
 Extraction Language OCaml.
 Extraction "model.ml"
   radd rsub rmul rdiv Qred Qeq_bool Qle_bool Qltb Qplus Qmult Qminus Qopp Qinv
-  inf_none inf_sentinel check_kkt check_farkas check_ray dz_l.
+  inf_none inf_sentinel check_kkt check_farkas check_ray dz_l
+  to_internal ilp_eqb wf_ulp.
